@@ -29,6 +29,15 @@ def oracle(case, a):
     before = bfsprops.c01_lines(a, str(i - 1), case.cfg)
     after = bfsprops.c01_lines(a, str(i + 1), case.cfg)
     if before is not None and after is not None and before != after:
+        diff = sorted(set(before) ^ set(after))
+        if o[0] == "removeall":
+            # RemoveAll works entry by entry: entries it had already backed up may be gone;
+            # the entry whose backup failed (and everything below it) must be untouched
+            fp = t2.world_path(case.cfg, t2.dec(hit[0].split()[2]))
+            diff = [l for l in diff if t2.dec(l.split()[0]) == fp or t2.dec(l.split()[0]).startswith(fp.rstrip(b"/") + b"/")]
+        if diff:
+            return "%s failed to back up (%s) but modified the base: %s" % (o[0], hit[0], diff[:4])
+    if False:
         return "%s failed to back up (%s) but modified the base: %s" % (o[0], hit[0], sorted(set(before) ^ set(after))[:4])
     # the failure must not corrupt the transaction
     m = bfsprops.c01_oracle(case, a)
